@@ -19,12 +19,12 @@ use std::time::Duration;
 
 pub const META: Meta = Meta {
     level: "exploration",
-    rule: "every address list of length <= 3 (quick) / <= 4 (thorough) over 12 address shapes {ip4/tcp, ip6/udp/quic-v1, dns4 plain, dns4 with space, with quote, with backslash, with space+quote+backslash, non-ASCII, plain names making the TXT value 254/255/256 bytes, 255-byte value full of backslashes with a space} plus n copies (n in 1,28,29,30,31,58,59,60; thorough also 87,88) of each shape, built by the real build_query_response and decoded by the real parser and by hickory; then every single-bit flip, 0x00/0xff/0xc0 overwrite and truncation of 13 representative packets through the real parser; then every byte string of length 0..3 (thorough 0..4) over {\", \\, =, d, n, s, a, r, /, space, 0x00, 0xff} as TXT character-string (alone, behind `dnsaddr=`, glued before/behind/quoted around a valid value, and as extra string next to valid ones) in a hand-built well-formed response through the real parser. Non-trivial = distinct lists with at least one advertised address, and distinct mutated packets that the parser rejects or that change the decoded peers.",
+    rule: "every address list of length <= 3 (quick) / <= 4 (thorough) over 14 address shapes {ip4/tcp, ip6/udp/quic-v1, two relayed circuit addresses with an inner /p2p/<other peer> (dns4 and ip4/quic relay), dns4 plain, dns4 with space, with quote, with backslash, with space+quote+backslash, non-ASCII, plain names making the TXT value 254/255/256 bytes, 255-byte value full of backslashes with a space} plus n copies (n in 1,28,29,30,31,58,59,60; thorough also 87,88) of each shape, built by the real build_query_response and decoded by the real parser and by hickory; then every single-bit flip, 0x00/0xff/0xc0 overwrite and truncation of 15 representative packets through the real parser; then every byte string of length 0..3 (thorough 0..4) over {\", \\, =, d, n, s, a, r, /, space, 0x00, 0xff} as TXT character-string (alone, behind `dnsaddr=`, glued before/behind/quoted around a valid value, and as extra string next to valid ones) in a hand-built well-formed response through the real parser. Non-trivial = distinct lists with at least one advertised address, and distinct mutated packets that the parser rejects or that change the decoded peers.",
     explanation: "Complete enumeration (E3) over the stated alphabet; decoded multiset compared with the advertised multiset; packet size checked; parser panics caught.",
-    assumptions: &["12 address shapes; DNS names without '/'", "peer name label is random: drawn from the entropy shim with a constant seed", "hickory-proto trusted as independent DNS reader"],
+    assumptions: &["14 address shapes; DNS names without '/'", "peer name label is random: drawn from the entropy shim with a constant seed", "hickory-proto trusted as independent DNS reader"],
 };
 
-const NSHAPES: usize = 12;
+const NSHAPES: usize = 14;
 
 fn txt_len(a: &Multiaddr) -> usize {
     format!("dnsaddr={}/p2p/{}", a, peer(1).to_base58()).len()
@@ -47,6 +47,9 @@ fn shape(i: usize) -> Multiaddr {
             let base = txt_len(&dns(String::new()));
             dns("a".repeat(target - base))
         }
+        // relayed (circuit) addresses: they already contain an inner /p2p/<other peer>
+        12 => Multiaddr::empty().with(Protocol::Dns4("relay.example.org".into())).with(Protocol::Tcp(4001)).with(Protocol::P2p(peer(2))).with(Protocol::P2pCircuit),
+        13 => Multiaddr::empty().with(Protocol::Ip4(std::net::Ipv4Addr::new(10, 0, 0, 9))).with(Protocol::Udp(4001)).with(Protocol::QuicV1).with(Protocol::P2p(peer(3))).with(Protocol::P2pCircuit),
         _ => {
             let base = txt_len(&dns(String::new()));
             let mut name = "\\".repeat(255 - base - 1);
